@@ -4,21 +4,22 @@
 (* within the bounds, for every configuration in Cfgs.                     *)
 EXTENDS CrdtPinsetBatch
 
-CONSTANTS MaxOps, MaxArm, AgeReset
+CONSTANTS MaxOps, MaxArm, MaxRArm, AgeReset, EmptySkip
 
-VARIABLES nsub, narm
-mcvars == <<vars, nsub, narm>>
+VARIABLES nsub, narm, nrarm
+mcvars == <<vars, nsub, narm, nrarm>>
 
-Cfgs == {[batching |-> FALSE, maxsize |-> 0, maxq |-> 1, agereset |-> AgeReset]} \cup
-        {[batching |-> TRUE, maxsize |-> s, maxq |-> q, agereset |-> AgeReset] : s \in 1..3, q \in 1..2}
+Cfgs == {[batching |-> FALSE, maxsize |-> 0, maxq |-> 1, agereset |-> AgeReset, emptyskip |-> EmptySkip]} \cup
+        {[batching |-> TRUE, maxsize |-> s, maxq |-> q, agereset |-> AgeReset, emptyskip |-> EmptySkip] : s \in 1..3, q \in 1..2}
 
 Init == /\ \E c \in Cfgs : InitWith(c)
-        /\ nsub = 0 /\ narm = 0
+        /\ nsub = 0 /\ narm = 0 /\ nrarm = 0
 
 Next == \/ /\ nsub < MaxOps /\ \E op \in Ops : Submit(op)
-           /\ nsub' = nsub + 1 /\ UNCHANGED narm
-        \/ /\ narm < MaxArm /\ Arm(1) /\ narm' = narm + 1 /\ UNCHANGED nsub
-        \/ Worker /\ UNCHANGED <<nsub, narm>>
+           /\ nsub' = nsub + 1 /\ UNCHANGED <<narm, nrarm>>
+        \/ /\ narm < MaxArm /\ Arm(1) /\ narm' = narm + 1 /\ UNCHANGED <<nsub, nrarm>>
+        \/ /\ nrarm < MaxRArm /\ RArm(1) /\ nrarm' = nrarm + 1 /\ UNCHANGED <<nsub, narm>>
+        \/ Worker /\ UNCHANGED <<nsub, narm, nrarm>>
 
 Spec == Init /\ [][Next]_mcvars
 
